@@ -237,6 +237,138 @@ class Monitor:
         self.events[key] = self.events.get(key, 0) + 1
 
 
+class EntryMonitor:
+    """Small-step monitor of the objects that outlive one operation (the generated `entryRows`): for every
+    outermost call of the entry method of a monitored object, the ordered sequence of FIRST occurrences of
+    `read <field>` / `write <field>` events on the object's own instance fields, whether the call was left by an
+    exception, and whether the previous call on the SAME object was.  The sequence is what the Lean model calls a
+    trace of a `Prog`; the discipline (`traceOk`) is checked by the driver against the generated row."""
+
+    def __init__(self):
+        self.installed = False
+        self.entry: dict[str, str] = {}
+        self.active: dict[int, dict] = {}
+        self.last_raised: dict[int, bool] = {}
+        self.calls: dict[str, int] = {}
+        self._traced: dict[type, type] = {}
+        self.keep: list = []  # monitored objects (kept alive: ids are keys)
+
+    def install(self, entry: dict):
+        if self.installed:
+            return
+        self.installed = True
+        self.entry = dict(entry)
+        S = shared()
+        self.attach(S["FOLD"])
+        self.attach(S["REWRITE"])
+        self.attach(S["REWRITE"].rules)
+        for rs in S["rulesets"].values():
+            self.attach(rs)
+        for p_ in S.get("CONVERT_PASSES", {}).values():
+            self.attach_convert(p_)
+
+    def attach_convert(self, p_):
+        if not self.installed:
+            return
+        self.attach(p_)
+        inner = getattr(p_, "_convert_pass", None)
+        if inner is not None:
+            self.attach(inner)
+
+    def attach(self, inst):
+        cls = type(inst)
+        if getattr(cls, "_c14_entry_traced", False):
+            return
+        name = cls.__name__
+        if name not in self.entry:
+            return
+        self.keep.append(inst)
+        traced = self._traced.get(cls)
+        if traced is None:
+            traced = self._traced[cls] = self._make(cls, name)
+        inst.__class__ = traced
+        # objects this one holds: the rules of a rule set, the matcher of a rule
+        if name == "RewriteRuleSet":
+            for r in inst.rules:
+                self.attach(r)
+        m = inst.__dict__.get("_matcher")
+        if m is not None:
+            self.attach(m)
+
+    def _make(self, cls, name):
+        mon = self
+        active = self.active
+
+        class Traced(cls):  # type: ignore[misc, valid-type]
+            _c14_entry_traced = True
+
+            def __getattribute__(self, attr):
+                st = active.get(id(self))
+                if st is None or attr.startswith("__"):
+                    return object.__getattribute__(self, attr)
+                try:
+                    v = object.__getattribute__(self, attr)
+                except AttributeError:
+                    mon.ev(st, "r:" + attr)
+                    raise
+                if attr in object.__getattribute__(self, "__dict__"):
+                    mon.ev(st, "r:" + attr)
+                return v
+
+            def __setattr__(self, attr, value):
+                st = active.get(id(self))
+                if st is not None:
+                    mon.ev(st, "w:" + attr)
+                object.__setattr__(self, attr, value)
+
+        en = self.entry[name]
+        if en == "<public>":
+            names = sorted({n for k in cls.__mro__ if k.__module__.startswith("onnxscript") for n, f in vars(k).items()
+                            if not n.startswith("_") and callable(f) and not isinstance(f, (staticmethod, classmethod, property))})
+        else:
+            names = [en]
+        for n in names:
+            setattr(Traced, n, self._wrap(getattr(cls, n), name))
+        Traced.__name__ = cls.__name__
+        Traced.__qualname__ = cls.__qualname__
+        Traced.__module__ = cls.__module__
+        return Traced
+
+    def _wrap(self, orig, clsname):
+        mon = self
+        active = self.active
+
+        def entry_call(self, *a, **k):
+            key = id(self)
+            if key in active:  # re-entered on the same object: part of the outer call
+                return orig(self, *a, **k)
+            st = active[key] = {"seen": set(), "tr": []}
+            raised = False
+            try:
+                return orig(self, *a, **k)
+            except BaseException:
+                raised = True
+                raise
+            finally:
+                del active[key]
+                mon.finish(clsname, key, st, raised)
+
+        entry_call.__name__ = getattr(orig, "__name__", "entry_call")
+        return entry_call
+
+    @staticmethod
+    def ev(st, e):
+        if e not in st["seen"]:
+            st["seen"].add(e)
+            st["tr"].append(e)
+
+    def finish(self, clsname, key, st, raised):
+        after = bool(self.last_raised.get(key))
+        self.last_raised[key] = raised
+        k = json.dumps([clsname, int(raised), int(after), st["tr"]])
+        self.calls[k] = self.calls.get(k, 0) + 1
+
+
 class NameLog:
     """Wraps Converter._generate_unique_name and _translate_if/_loop to expose (used, nextvar, candidate, result)
     and (set iteration order in this process, live_defs handed to the branches)."""
@@ -288,6 +420,7 @@ class NameLog:
 
 
 MON = Monitor()
+EMON = EntryMonitor()
 NAMES = NameLog()
 
 # --------------------------------------------------------------------------- operations
@@ -615,6 +748,7 @@ def op_model(op: dict) -> dict:
             tgt = int(op["target"])
             if tgt not in passes:
                 passes[tgt] = S["vc"].ConvertVersionPass(target_version=tgt)
+                EMON.attach_convert(passes[tgt])
             def _vnames(mm):
                 ns = set()
                 for g_ in (mm.graph, *mm.functions.values()):
@@ -644,6 +778,11 @@ def op_model(op: dict) -> dict:
             raise ValueError(kind)
         res["err"] = None
         res["digest"] = _sha(out)
+        if op.get("watch_op"):
+            # is the watched operator still in the result (= the folder found no evaluator / did not fold it)?
+            pm = S["onnx"].ModelProto()
+            pm.ParseFromString(out.split(b"|modified=")[0])
+            res["watch_left"] = sum(1 for n_ in pm.graph.node if n_.op_type == op["watch_op"])
         if op.get("want_text"):
             m2 = S["onnx"].ModelProto()
             m2.ParseFromString(out.split(b"|modified=")[0])
@@ -899,6 +1038,8 @@ def run_request(req: dict) -> dict:
     if req.get("monitor"):
         MON.install()
         NAMES.install()
+        if req.get("entry"):
+            EMON.install(req["entry"])
     results = []
     for op in req["ops"]:
         try:
@@ -918,6 +1059,8 @@ def run_request(req: dict) -> dict:
         if MON.cur is not None:
             MON.end()
         rep["events"] = MON.events
+        if req.get("entry"):
+            rep["ecalls"] = EMON.calls
         rep["names"] = NAMES.names
         rep["ctrl"] = NAMES.ctrl
     return rep
